@@ -21,8 +21,11 @@ N = {"quick": 120, "thorough": 2500}
 FORMATS = ("glyf_colr_1", "glyf_colr_1", "glyf_colr_0", "picosvg")
 
 
+NCLI = {"quick": 10, "thorough": 100}
+
+
 def plan(tier, seed):
-    return [{"id": f"{seed}-{i}", "i": i} for i in range(N[tier])]
+    return [{"id": f"{seed}-{i}", "i": i} for i in range(N[tier])] + [{"id": f"{seed}-cli{i}", "i": 50000 + i, "lane": "cli", "timeout": 900} for i in range(NCLI[tier])]
 
 
 def near_miss_set(r, fmt, tol, scale_font_per_vb, vb):
@@ -68,7 +71,16 @@ def gen_case(case):
         cfg["clip_to_viewbox"] = False
     mode = r.random()
     meta = {"fmt": fmt}
-    if mode < 0.25:
+    if mode < 0.15:
+        svgs, gcfg, m = svggen.grid_recurrence_set(r, r.randint(2, 3), pal=pal)
+        keep_clip = cfg["clip_to_viewbox"]
+        cfg.update(gcfg)
+        cfg["clip_to_viewbox"] = keep_clip
+        cfg.pop("transform", None)
+        if tol == 0.0:
+            cfg["reuse_tolerance"] = 0.1
+        meta.update(mode="grid-recurrence", transforms=m["transforms"])
+    elif mode < 0.3:
         vb = r.choice([24, 128, 1000])
         em = cfg["ascender"] - cfg["descender"]
         svgs, m = near_miss_set(r, fmt, max(tol, 0.05), em / vb, vb)
@@ -148,6 +160,35 @@ def run_case(case):
     for label, tol in (("reuse", cfg["reuse_tolerance"]), ("noreuse", -1)):
         contracts.reset()
         try:
+            if case.get("lane") == "cli":
+                # the whole pipeline incl. the part-file steps, which only exist on the CLI
+                import shutil
+
+                scratch = common.mkscratch("c06cli-")
+                try:
+                    b, info = rc.built_from_cli(sources, dict(cfg, reuse_tolerance=tol), scratch)
+                finally:
+                    shutil.rmtree(scratch, ignore_errors=True)
+                if "cli-lane" not in res["tags"]:
+                    res["tags"].append("cli-lane")
+                if b is None:
+                    out = info["output"]
+                    if any(k in out for k in ("OverflowError", "does not fit in format", "format requires", "already maps to", "Expected uniform scale")):
+                        outcome[label] = ("refused", out[-300:])
+                    else:
+                        outcome[label] = ("raised", f"CLI exit {info['rc']}", out)
+                    hits[label] = {}
+                    continue
+                cnt = {}
+                for e in info["contract_events"]:
+                    for k, n in (e.get("counters") or {}).items():
+                        cnt[k] = cnt.get(k, 0) + n
+                    for v in e.get("violations") or []:
+                        v["build"] = label
+                        res["violations"].append(v)
+                outcome[label] = ("ok", b)
+                hits[label] = cnt
+                continue
             b = inproc.build(sources, dict(cfg, reuse_tolerance=tol), normalised=norm)
             outcome[label] = ("ok", b)
         except Exception as e:
